@@ -376,6 +376,43 @@ let c16_bcast t =
   "contacted=" ^ join "," sz (bcast_allowed mine (z_of_small (-1)) ms) ^
   " priority=" ^ join "," sz (bcast_priority mine ms)
 
+(* ---------- C03 ---------- *)
+(* part <nops> { D v s e last k {seq}*k | A v | C }  ; payload id of (v, seq) is seq *)
+let c03_part t =
+  let nops = ti t in
+  let states : (int * pst) list ref = ref [] in
+  let order = ref [] in
+  let get v = match List.assoc_opt v !states with Some s -> s | None -> pst_init in
+  let set v s = states := (v, s) :: List.remove_assoc v !states in
+  let outs = ref [] in
+  for _ = 1 to nops do
+    (match tok t with
+     | "D" -> let v = ti t in let s = tz t in let e = tz t in let last = tz t in
+       let k = ti t in let seqs = tlist t k tz in
+       if not (List.mem v !order) then order := !order @ [v];
+       let (st', _) = pstep (get v) (Deliver (s, e, last, List.map (fun q -> (q, q)) seqs)) in set v st'
+     | "A" -> let v = ti t in let (st', _) = pstep (get v) ApplyBuffered in set v st'
+     | "C" -> List.iter (fun v -> let (st', _) = pstep (get v) Clear in set v st') !order
+     | x -> failwith ("bad op " ^ x));
+    let line = String.concat " " (List.map (fun v ->
+        let st = get v in
+        let ids = List.sort_uniq compare (List.map (fun (_, id) -> int_of_z id) st.ps_db) in
+        "v" ^ string_of_int v ^
+        " db=" ^ String.concat "," (List.map string_of_int ids) ^
+        " buf=" ^ join "," (fun (q, _) -> sz q) st.ps_buf ^
+        " rows=" ^ join "," (fun ((a, b), l) -> sz a ^ "-" ^ sz b ^ ":" ^ sz l) st.ps_rows ^
+        " mem=" ^ (match st.ps_mem with None -> "-" | Some p -> sz p.p_last ^ ":" ^ fmt_ranges p.p_seqs) ^
+        " known=" ^ sb st.ps_known ^ " trig=" ^ sz st.ps_trig) !order) in
+    outs := line :: !outs
+  done;
+  String.concat " # " (List.rev !outs)
+
+(* chk_part <last> <nsteps> { <covered 0/1> <k> {id}*k } *)
+let c03_chk t =
+  let last = tz t in let n = ti t in
+  let steps = tlist t n (fun t -> let c = ti t = 1 in let k = ti t in (c, tlist t k tz)) in
+  "ok=" ^ sb (atomic_vis last steps)
+
 (* ---------- dispatch ---------- *)
 let handlers : (string * (toks -> string)) list ref = ref [
   "chunks", c08_chunks;
@@ -388,6 +425,8 @@ let handlers : (string * (toks -> string)) list ref = ref [
   "chk_needs", c04_chk;
   "members", c18_members;
   "chk_members", c18_chk;
+  "part", c03_part;
+  "chk_part", c03_chk;
   "ingest", c10_ingest;
   "uni", c16_uni;
   "serve", c16_serve;
